@@ -24,6 +24,7 @@
 #
 from __future__ import annotations
 
+import re
 import string
 from enum import Enum
 from typing import Union, MutableSequence
@@ -49,15 +50,31 @@ def repr_string(string: str, indent: int = 0, prefer_single_qoute: bool = False)
         preferred_multiline_quote = '"""'
         secondary_multiline_quote = "'''"
 
+    escaped = escape_newlines(escape_quotes(string, which_quotes=preferred_quote))
+    single_line = f"{preferred_quote}{escaped}{preferred_quote}"
+    if preferred_multiline_quote not in string:
+        multiline: str | None = _repr_multiline_string(string, indent, preferred_multiline_quote)
+    elif secondary_multiline_quote not in string:
+        multiline = _repr_multiline_string(string, indent, secondary_multiline_quote)
+    else:
+        # uh oh... We can't properly handle this at the moment. We fall back to single line string representation.
+        multiline = None
+    # Single line literals are unescaped when read (\n, \' and \"), a backslash in front of these characters
+    # or at the end of the string would not survive that. Backslashes have no meaning in multi line literals.
+    single_line_is_safe = re.search(r"\\([n'\"]|$)", string) is None
+    # Multi line literals are dedented when read, if all lines are indented, that indentation would be lost.
+    multiline_is_safe = multiline is not None and any(not line.startswith(" ") for line in string.split("\n"))
+
     if "\n" not in string:
         # Single line string
-        return f"{preferred_quote}{escape_quotes(string, which_quotes=preferred_quote)}{preferred_quote}"
-    if preferred_multiline_quote in string:
-        if secondary_multiline_quote in string:
-            # uh oh... We can't properly handle this at the moment. We fall back to single line string representation.
-            return f"{preferred_quote}{escape_newlines(escape_quotes(string, which_quotes=preferred_quote))}{preferred_quote}"
-        return _repr_multiline_string(string, indent, secondary_multiline_quote)
-    return _repr_multiline_string(string, indent, preferred_multiline_quote)
+        if not single_line_is_safe and multiline_is_safe:
+            assert multiline is not None
+            return multiline
+        return single_line
+    if multiline_is_safe or (multiline is not None and not single_line_is_safe):
+        assert multiline is not None
+        return multiline
+    return single_line
 
 
 def _repr_multiline_string(string: str, indent: int, delimiter: str) -> str:
